@@ -975,9 +975,6 @@ class Normalizer:
         if op == "stack" and len(a) >= 3 and isinstance(a[0], Term) and a[0].op == "const" and a[0].args[0] == 0 and all(isinstance(b_, Term) for b_ in a[1:]) and any(b_.op == "T" and len(b_.args) == 1 for b_ in a[1:]):
             # blocks of transposed matrices stacked by rows: the transpose of the blocks stacked by columns
             return self.nf(Term("T", Term("stack", Term("const", Fraction(1)), *[(b_.args[0] if b_.op == "T" and len(b_.args) == 1 else Term("T", b_)) for b_ in a[1:]])))
-        if op == "matmul" and len(a) == 2 and isinstance(a[1], Term) and a[1].op == "getitem" and isinstance(a[1].args[1], Term) and a[1].args[1].op in ("sym", "lv") and isinstance(a[0], Term) and not (a[0].op == "getitem" and isinstance(a[0].args[1], Term) and a[0].args[1].op in ("sym", "lv")):
-            # M @ v = v @ M^T for a row v = A[i] taken at one position
-            return self.nf(Term("matmul", a[1], Term("T", a[0])))
         if op == "T":
             return p_T(self.nf(a[0]), self.symmetric)
         if op in ("reshape1", "astype", "bcast"):
@@ -1118,7 +1115,7 @@ class Normalizer:
                 if isinstance(inner_i, Term) and inner_i.op in ("unique", "nonzero1", "argsort", "list", "setdiff1d", "arange", "flatten", "ravel", "sort"):  # index vectors only: a scalar index would drop the axis
                     return self.nf(Term("getitem", base.args[0], Term("tuple", inner_i, idx.args[1])))
             # row l of A^T is column l of A
-            if isinstance(base, Term) and base.op == "T" and len(base.args) == 1 and isinstance(idx, Term) and (idx.op in ("lv", "sym") or (idx.op == "const" and isinstance(idx.args[0], Fraction))) and idx.op != "tuple":
+            if isinstance(base, Term) and base.op == "T" and len(base.args) == 1 and isinstance(idx, Term) and (idx.op == "lv" or (idx.op == "const" and isinstance(idx.args[0], Fraction))):
                 return self.nf(Term("getitem", base.args[0], Term("tuple", Term("slice", Term("const", None), Term("const", None), Term("const", None)), idx)))
             # arange(n)[:k] = arange(k) ; arange(n)[mask] = flatnonzero(mask) ; a[arange(k)] = a[:k]
             if isinstance(base, Term) and base.op == "arange" and len(base.args) == 1 and isinstance(idx, Term):
